@@ -84,6 +84,13 @@ package configf
 //@   perreturn
 //@   modifies buf.buf.bytes
 //@   ensures [C03] err == nil && buf.buf.bytes == pre
+//@   site ).Write#0 assert [C03] $2 == 0
+//@   site ).Write#1 assert [C03] $2 == 1
+//@   site ).Write#2 assert [C03] $2 == 2
+//@   site ).Write#3 assert [C03] $2 == 3
+//@   site ).Write#4 assert [C03] $2 == 4
+//@   site ).Write#5 assert [C03] $2 == 5
+//@   sites ).Write = 6
 //@   safety [C03]
 //
 //@ func (*ConfigInfo).WriteBlock
@@ -183,6 +190,13 @@ package configf
 //@   site if#5 assert [C03] buf.buf.bytes == e3
 //@   site if#7 assert [C03] buf.buf.bytes == e4
 //@   site if#9 assert [C03] buf.buf.bytes == e5
+//@   site ).Write#0 assert [C03] $2 == 0
+//@   site ).Write#1 assert [C03] $2 == 1
+//@   site ).Write#2 assert [C03] $2 == 2
+//@   site ).Write#3 assert [C03] $2 == 3
+//@   site ).Write#4 assert [C03] $2 == 4
+//@   site ).Write#5 assert [C03] $2 == 5
+//@   sites ).Write = 6
 //@   safety [C03]
 //
 //@ func (*GetConfigListInfo).WriteBlock
